@@ -750,7 +750,7 @@ var spec = &hx.Spec[Case]{
 		"1..2 Swaps started and observed queued on the lock (runtime goroutine state), then the requests released; random: 2..8 goroutines x bursts of such requests racing with 1..4 swaps under generated yields inside the leaf and at swap.locked; " +
 		"or a race case (1 in 64, and a fixed grid of 12): failover group of 3..5 members of which exactly one never fails, 2..48 goroutines x 1..4 get/has requests for a held and an absent chunk on 25..600 fresh groups, " +
 		"either with every first request held inside the first failing member until all are inside and then released at once or staggered (late failure reports), or with generated yields at failover.selected; " +
-		"plus, when the built command is available, CLI cases (3 in 512 quick / 1 in 32 thorough, and a fixed grid of 40): desync extract / cat / chunk-server --store-file + SIGHUP given 1..3 -s entries " +
+		"plus, when the built command is available, CLI cases (3 in 512 quick / 1 in 32 thorough, and a fixed grid of 40): desync extract / cat / chunk-server --store-file + SIGHUP / mount-index --store-file + SIGHUP (reload acceptance only, no mount) given 1..3 -s entries " +
 		"(directory, harness HTTP chunk server, raw file server, failover group a|b of 2..3) and an optional -c cache (directory or writable HTTP store) with --cache-repair default/true/false, per member absent/valid/invalid objects and down = connection refused / always 500; " +
 		"non-trivial = history with a failover advance, a cache fill or a cache repair, or concurrent case with a failover advance or a swap issued while >=1 request was in flight, " +
 		"or race case in which members failed under >=2 goroutines, or load case with a Swap seen queued behind an in-flight request (directed) or >=2 workers (random), or CLI case whose documented resolution needs a failover advance, a cache fill or a cache repair; distinct by the whole case",
@@ -785,7 +785,8 @@ var spec = &hx.Spec[Case]{
 var cliRequired = []string{"mode:cli", "cli:cmd:extract", "cli:cmd:cat", "cli:cmd:server", "cli:shape:router", "cli:shape:failover",
 	"cli:cache:local", "cli:cache:http", "cli:cache-repair:on", "cli:cache-repair:off",
 	"cli:ev:repair", "cli:ev:repair-nonlocal-cache", "cli:ev:fill", "cli:ev:hit", "cli:ev:failover-advance", "cli:ev:router-fallthrough",
-	"cli:expect:success", "cli:expect:failure", "cli:server:reload-observed"}
+	"cli:expect:success", "cli:expect:failure", "cli:server:reload-observed",
+	"cli:cmd:mount", "cli:reload:accepted", "cli:reload:lone-local-store→chain", "cli:reload:chain→lone-local-store", "cli:reload:there-and-back"}
 
 func TestMain(m *testing.M) {
 	if cliBin() != "" {
